@@ -189,7 +189,7 @@ async def check_case(case, rec, ctx):
         ref_rc = H.returncode_class(r1.result.returncode)
         rec.event("reference:" + ref_rc)
         ref_files = non_user_files(r1.after, user_files)
-        ref_graph = H.project_graph(r1.result.tables)
+        ref_graph = H.project_graph(r1.result.tables) + H.outcome_facts(r1.result.tables)
         # When did the job loop end? (cleanup window = images after the "Ran N job(s)" report)
         images = list(r1.result.snaps)
         if len(images) > MAX_IMAGES:
@@ -286,7 +286,7 @@ async def check_image(case, tag, image_dir, stage1, ref_rc, ref_files, ref_graph
                 f"{where}: after restart and completion, left behind {extra}, missing {missing}, "
                 f"different content {differ}; edits {[s['edit'] for s in case['stages']]}",
             )
-        graph = H.project_graph(result.tables)
+        graph = H.project_graph(result.tables) + H.outcome_facts(result.tables)
         if graph != ref_graph:
             raise Violation(
                 f"{PROPERTY}/graph-differs-after-restart",
